@@ -5,9 +5,9 @@
 
    Sources (winterfell /repo):
      verifier/src/lib.rs        verify, perform_verification (order of checks, error of each)
-     verifier/src/evaluator.rs  evaluate_constraints (main segment; aux / Lagrange parts are not modelled)
+     verifier/src/evaluator.rs  evaluate_constraints (main and auxiliary segment; the Lagrange-kernel part is not modelled)
      verifier/src/composer.rs   DeepComposer::{compose_trace_columns, compose_constraint_evaluations,
-                                combine_compositions} (main segment)
+                                combine_compositions} (main and auxiliary segment, no Lagrange-kernel column)
      air/src/air/divisor.rs     ConstraintDivisor::{from_transition, from_assertion, evaluate_at}
      air/src/air/boundary/{constraint.rs,constraint_group.rs}  evaluate_at
      air/src/air/transition/mod.rs  combine_evaluations
@@ -153,7 +153,12 @@ Section Enforcement.
     tv -f (match vpoly with [v] => v | p => peval O p (x *f xoff) end).
 End Enforcement.
 
-(* ------------------------------------------------------------------ (c) the verifier's decision *)
+(* ------------------------------------------------------------------ (c) the verifier's decision
+   Round 4: main AND auxiliary trace segment, over any carrier [FOps F] (the base field or its quadratic / cubic
+   extension E: every value below is an element of E; values the Rust code holds in the base field — opened main-segment
+   rows, periodic polynomials, main assertion polynomials, the domain generator — enter through E::from, which the
+   driver applies when it builds the inputs).  This version of verifier/src/composer.rs has no conjugate handling for
+   extension fields: one DEEP value per query position, all arithmetic in E. *)
 Section Verifier.
   Context {F : Type} (O : FOps F).
   Local Notation zero := (fzero O).
@@ -164,6 +169,9 @@ Section Verifier.
 
   (* Air::evaluate_transition(frame, periodic_values, result) *)
   Variable eval_trans : list F -> list F -> list F -> list F.
+  (* Air::evaluate_aux_transition(main_frame, aux_frame, periodic_values, aux_rand_elements, result):
+     main current, main next, aux current, aux next, periodic values, random elements *)
+  Variable eval_aux_trans : list F -> list F -> list F -> list F -> list F -> list F -> list F.
 
   (* one boundary constraint of a group / one group (common divisor) *)
   Record BCons := mkBCons { bc_col : nat; bc_vpoly : list F; bc_xoff : F }.
@@ -174,34 +182,55 @@ Section Verifier.
     air_k : nat;                      (* transition exemptions *)
     air_g : F;                        (* trace domain generator *)
     air_periodic : list (list F);     (* get_periodic_column_polys *)
-    air_groups : list BGroup          (* boundary constraint groups, in the order of get_boundary_constraints *)
+    air_groups : list BGroup;         (* main boundary constraint groups, in the order of get_boundary_constraints *)
+    air_nt_main : nat;                (* context.main_transition_constraint_degrees.len() *)
+    air_aux_groups : list BGroup      (* auxiliary boundary constraint groups, same order *)
   }.
 
-  (* coin outputs *)
+  (* coin outputs, each list in the order in which the coin produced it *)
   Record Coins := mkCoins {
-    cc_trans : list F; cc_bnd : list F;      (* constraint composition coefficients *)
+    c_aux_rands : list F;                    (* get_aux_rand_elements (empty without auxiliary segment) *)
+    cc_trans : list F;                       (* transition coefficients: main constraints first, then auxiliary *)
+    cc_bnd : list F;                         (* boundary coefficients: main assertions first, then auxiliary *)
     c_z : F;                                 (* out-of-domain point *)
-    cc_deep_trace : list F; cc_deep_cons : list F;
+    cc_deep_trace : list F;                  (* DEEP coefficients of the trace columns: main first, then auxiliary *)
+    cc_deep_cons : list F;                   (* DEEP coefficients of the constraint composition columns *)
     c_xs : list F                            (* x coordinates of the (sorted, deduplicated) query positions *)
   }.
+
+  (* the auxiliary segment of a parsed proof: OOD frame of the auxiliary columns and the opened auxiliary rows *)
+  Record AuxOpen := mkAuxOpen { ax_cur : list F; ax_next : list F; ax_rows : list (list F) }.
 
   (* the parsed proof *)
   Record ProofObj := mkProof {
     p_modulus : Z;                           (* context.field_modulus *)
     p_options : list Z;                      (* [queries; blowup; grinding; extension; folding; remainder max degree] *)
-    p_ood_cur : list F; p_ood_next : list F; (* out-of-domain trace frame *)
+    p_ood_cur : list F; p_ood_next : list F; (* out-of-domain frame of the main columns (TraceOodFrame::main_frame) *)
     p_ood_evals : list F;                    (* H_i(z) *)
-    p_q_trace : list (list F);               (* opened trace rows, one per query position *)
-    p_q_cons : list (list F)                 (* opened composition-column rows *)
+    p_q_trace : list (list F);               (* opened main trace rows, one per query position *)
+    p_q_cons : list (list F);                (* opened composition-column rows *)
+    p_aux : option AuxOpen                   (* Some iff the trace is multi-segment (aux_frame / queried_aux_trace_states) *)
   }.
 
   (* evaluator.rs *)
   Definition periodic_at (A : AirDesc) (z : F) : list F :=
     map (fun poly => peval O poly (fpow O z (air_n A / length poly))) (air_periodic A).
 
+  (* TransitionConstraints::combine_evaluations: main evaluations with the first air_nt_main coefficients, auxiliary
+     evaluations with the remaining ones (split_at), the sum divided by the transition divisor.  Without auxiliary
+     frame the auxiliary evaluations are all zero. *)
   Definition eval_transition_part (A : AirDesc) (C : Coins) (P : ProofObj) : F :=
-    let ev := eval_trans (p_ood_cur P) (p_ood_next P) (periodic_at A (c_z C)) in
-    fdiv O (dot O (cc_trans C) ev) (trans_divisor_eval O (air_g A) (air_n A) (air_k A) (c_z C)).
+    let pers := periodic_at A (c_z C) in
+    let ev1 := eval_trans (p_ood_cur P) (p_ood_next P) pers in
+    let main := dot O (firstn (air_nt_main A) (cc_trans C)) ev1 in
+    let num :=
+      match p_aux P with
+      | None => main
+      | Some ax =>
+          main +f dot O (skipn (air_nt_main A) (cc_trans C))
+                        (eval_aux_trans (p_ood_cur P) (p_ood_next P) (ax_cur ax) (ax_next ax) pers (c_aux_rands C))
+      end in
+    fdiv O num (trans_divisor_eval O (air_g A) (air_n A) (air_k A) (c_z C)).
 
   (* BoundaryConstraintGroup::evaluate_at; the coefficients are consumed in order *)
   Fixpoint group_numer (cs : list BCons) (ccs : list F) (state : list F) (x : F) : F :=
@@ -218,9 +247,21 @@ Section Verifier.
         fdiv O (group_numer (bg_cons G) (firstn m ccs) state x) (bnd_divisor_eval O g (bg_first G) (bg_steps G) x)
         +f eval_groups g gs' (skipn m ccs) state x
     end.
+  (* number of assertions in a list of groups (BoundaryConstraints::new: split_at(main_assertions.len())) *)
+  Definition groups_size (gs : list BGroup) : nat := fold_right (fun G acc => length (bg_cons G) + acc) 0 gs.
+
+  (* main groups on the main current row, auxiliary groups (their coefficients follow those of ALL main assertions) on
+     the auxiliary current row *)
+  Definition eval_boundary_part (A : AirDesc) (C : Coins) (P : ProofObj) : F :=
+    let main := eval_groups (air_g A) (air_groups A) (cc_bnd C) (p_ood_cur P) (c_z C) in
+    match p_aux P with
+    | None => main
+    | Some ax =>
+        main +f eval_groups (air_g A) (air_aux_groups A) (skipn (groups_size (air_groups A)) (cc_bnd C)) (ax_cur ax) (c_z C)
+    end.
 
   Definition evaluate_constraints (A : AirDesc) (C : Coins) (P : ProofObj) : F :=
-    eval_transition_part A C P +f eval_groups (air_g A) (air_groups A) (cc_bnd C) (p_ood_cur P) (c_z C).
+    eval_transition_part A C P +f eval_boundary_part A C P.
 
   (* sum_i z^(i*n) * H_i(z) *)
   Fixpoint ood_reduce (n : nat) (z : F) (i : nat) (evals : list F) : F :=
@@ -229,19 +270,56 @@ Section Verifier.
   Definition ood_equation_b (A : AirDesc) (C : Coins) (P : ProofObj) : bool :=
     feqb O (evaluate_constraints A C P) (ood_reduce (air_n A) (c_z C) 0 (p_ood_evals P)).
 
-  (* composer.rs, one query position with x coordinate [x] *)
-  Definition deep_trace_at (C : Coins) (P : ProofObj) (zg : F) (row : list F) (x : F) : F :=
-    let t1 := dot O (cc_deep_trace C) (map (fun vo => fst vo -f snd vo) (combine row (p_ood_cur P))) in
-    let t2 := dot O (cc_deep_trace C) (map (fun vo => fst vo -f snd vo) (combine row (p_ood_next P))) in
+  (* composer.rs.  `for (i, &value) in row.iter().enumerate() { num += (value - ood[i]) * cc.trace[idx i] }`:
+     the running sum of one segment's columns, each with the coefficient whose index the map [idx] names *)
+  Fixpoint col_terms (cc : list F) (idx : nat -> nat) (i : nat) (row ood : list F) : F :=
+    match row, ood with
+    | v :: row', o :: ood' => (v -f o) *f nth (idx i) cc zero +f col_terms cc idx (S i) row' ood'
+    | _, _ => zero
+    end.
+
+  (* which DEEP coefficient a trace column gets.  Main column i: cc.trace[i].  Auxiliary column j:
+     cc.trace[cc_offset + j] with cc_offset = queried_main_trace_states.num_columns() — the index keeps running over
+     the segments.  compose_trace_columns is written over the map of the auxiliary segment so that the property of
+     the map that matters (Props/C02.v: injectivity over all columns) and what is lost without it can both be stated *)
+  Inductive TraceCol := MainCol (i : nat) | AuxCol (j : nat).
+  Definition deep_coeff_index_aux (main_width j : nat) : nat := main_width + j.
+  Definition deep_coeff_index (main_width : nat) (c : TraceCol) : nat :=
+    match c with MainCol i => i | AuxCol j => deep_coeff_index_aux main_width j end.
+
+  (* one query position with x coordinate [x]: [row] the opened main row, [arow] the opened auxiliary row (if any) *)
+  Definition deep_trace_at_gen (aux_idx : nat -> nat -> nat) (C : Coins) (P : ProofObj) (zg : F)
+                               (row : list F) (arow : option (list F)) (x : F) : F :=
+    let cc := cc_deep_trace C in
     let d1 := x -f c_z C in
     let d2 := x -f zg in
-    (t1 *f d2 +f t2 *f d1) *f finv O (d1 *f d2).
+    let t1 := col_terms cc (fun i => i) 0 row (p_ood_cur P) in
+    let t2 := col_terms cc (fun i => i) 0 row (p_ood_next P) in
+    let num := t1 *f d2 +f t2 *f d1 in
+    let num :=
+      match p_aux P, arow with
+      | Some ax, Some ar =>
+          let idx := aux_idx (length row) in
+          num +f (col_terms cc idx 0 ar (ax_cur ax) *f d2 +f col_terms cc idx 0 ar (ax_next ax) *f d1)
+      | _, _ => num
+      end in
+    num *f finv O (d1 *f d2).
+  Definition deep_trace_at : Coins -> ProofObj -> F -> list F -> option (list F) -> F -> F :=
+    deep_trace_at_gen deep_coeff_index_aux.
+
   Definition deep_cons_at (C : Coins) (P : ProofObj) (row : list F) (x : F) : F :=
     dot O (cc_deep_cons C) (map (fun vo => fst vo -f snd vo) (combine row (p_ood_evals P))) *f finv O (x -f c_z C).
+
+  (* the opened auxiliary row of query q: `(0..n).zip(queried_aux_trace_states.rows())` *)
+  Definition aux_row_at (P : ProofObj) (q : nat) : option (list F) :=
+    match p_aux P with Some ax => nth_error (ax_rows ax) q | None => None end.
+
   Definition deep_evaluations (A : AirDesc) (C : Coins) (P : ProofObj) : list F :=
     let zg := c_z C *f air_g A in
-    map (fun rx => deep_trace_at C P zg (fst (fst rx)) (snd rx) +f deep_cons_at C P (snd (fst rx)) (snd rx))
-        (combine (combine (p_q_trace P) (p_q_cons P)) (c_xs C)).
+    map (fun qrx =>
+           let rx := snd qrx in
+           deep_trace_at C P zg (fst (fst rx)) (aux_row_at P (fst qrx)) (snd rx) +f deep_cons_at C P (snd (fst rx)) (snd rx))
+        (combine (seq 0 (length (p_q_trace P))) (combine (combine (p_q_trace P) (p_q_cons P)) (c_xs C))).
 
   (* errors of verify(), in the order in which they can be raised *)
   Inductive Verdict :=
@@ -251,7 +329,7 @@ Section Verifier.
   | RejOod            (* InconsistentOodConstraintEvaluations *)
   | RejFriCommit      (* FriVerificationFailed raised by FriVerifier::new *)
   | RejPow            (* QuerySeedProofOfWorkVerificationFailed *)
-  | RejTraceQuery     (* TraceQueryDoesNotMatchCommitment *)
+  | RejTraceQuery     (* TraceQueryDoesNotMatchCommitment (main or auxiliary segment) *)
   | RejConsQuery      (* ConstraintQueryDoesNotMatchCommitment *)
   | RejFri.           (* FriVerificationFailed raised by FriVerifier::verify on the DEEP evaluations *)
 
@@ -269,7 +347,7 @@ Section Verifier.
     e_acceptable : list (list Z);
     e_fri_commit_ok : bool;
     e_pow_ok : bool;
-    e_trace_auth : bool;                     (* MerkleTree::verify_batch of the trace openings *)
+    e_trace_auth : bool;                     (* MerkleTree::verify_batch of the trace openings, every segment *)
     e_cons_auth : bool;                      (* MerkleTree::verify_batch of the constraint openings *)
     e_fri : list F -> bool                   (* FriVerifier::verify on the DEEP evaluations *)
   }.
@@ -286,7 +364,7 @@ Section Verifier.
     else Accept.
 End Verifier.
 
-(* ------------------------------------------------------------------ the harness' AIR family (main segment):
+(* ------------------------------------------------------------------ the harness' AIR family:
    Gallina twin of harness/src/airfam.rs FamAir::evaluate_transition.  Column c obeys
    next[c] = cur[c]^d_c * (1 + per_c) + k_c * cur[(c+1) mod w]   (hold columns: next = cur). *)
 Section Family.
@@ -307,6 +385,18 @@ Section Family.
              let per := match fc_per d with Some i => fone O +f nth i pers (fzero O) | None => fone O end in
              nx -f (fpow O cu (fc_deg d) *f per +f fc_k d *f nth (Nat.modulo (S c) w) cur (fzero O)))
         (combine (seq 0 w) cols).
+
+  (* auxiliary segment of the family (FamAir::evaluate_aux_transition): a running product and running sums,
+       aux_next[0] = aux_cur[0] * (main_cur[0] + r_0),   aux_next[j] = aux_cur[j] + r_j * main_cur[j mod w],
+     r_i = rands[i mod #rands] (ONE when no random element is drawn) *)
+  Definition fam_aux_trans (w aw : nat) (mcur mnext acur anext pers rands : list F) : list F :=
+    let r := fun i => match rands with [] => fone O | _ => nth (Nat.modulo i (length rands)) rands (fzero O) end in
+    map (fun j =>
+           match j with
+           | 0 => nth 0 anext (fzero O) -f nth 0 acur (fzero O) *f (nth 0 mcur (fzero O) +f r 0)
+           | _ => nth j anext (fzero O) -f (nth j acur (fzero O) +f r j *f nth (Nat.modulo j w) mcur (fzero O))
+           end)
+        (seq 0 aw).
 End Family.
 
 (* query x coordinates (DeepComposer::new) and the family's transition with periodic VALUES at a step
